@@ -73,6 +73,10 @@ def run(tier, seed):
             if '*' in f['ty'] or f['ty'].rstrip().endswith('&'):
                 key = (qn, f['name'])
                 ty = f['ty'].strip()
+                if key not in allow and '(*)' in ty:
+                    rep.add('OWNERSHIP', '%s::%s' % key, where({'file': r['file'], 'l': f['l']}),
+                            '%s::%s (%s): pointer to a function (code is immutable)' % (qn, f['name'], f['ty'][:60]), True, nontrivial=False)
+                    continue
                 if key not in allow and ty.startswith('const ') and (ty.endswith('*') or ty.endswith('* const')) and ty.count('*') == 1 \
                         and any(b in ty for b in ('double', 'float', 'int', 'char', 'long', 'bool', 'unsigned', 'short')):
                     # pointer to constant scalars (a view on a literal table): nothing can be written through it, and what it points
